@@ -6,6 +6,7 @@
 
 mod bridge;
 mod ctx;
+mod diag;
 mod mon;
 mod oracle;
 mod trace;
